@@ -92,3 +92,47 @@ def rt_transition_tokens(previous, value):
     tokens = list(s.data)
     v = r.read_zone_interval_transition(previous)
     return (v, s.pos, len(s.data), tokens)
+
+
+def rt_year_offset(yo):
+    from pyoda_time.time_zones._zone_year_offset import _ZoneYearOffset
+
+    s, w, r = _pair()
+    yo._write(w)
+    tokens = list(s.data)
+    back = _ZoneYearOffset.read(r)
+    return (back, s.pos, len(s.data), tokens)
+
+
+def rt_recurrence(rec):
+    from pyoda_time.time_zones._zone_recurrence import _ZoneRecurrence
+
+    s, w, r = _pair()
+    rec._write(w)
+    back = _ZoneRecurrence.read(r)
+    return (back, s.pos, len(s.data))
+
+
+def rt_alt_map(m):
+    from pyoda_time.time_zones._standard_daylight_alternating_map import _StandardDaylightAlternatingMap
+
+    s, w, r = _pair()
+    m._write(w)
+    back = _StandardDaylightAlternatingMap._read(r)
+    return (back, s.pos, len(s.data))
+
+
+def rt_string(value, pool_w, pool_r):
+    s, w, r = _pair(pool_w, pool_r)
+    w.write_string(value)
+    size = len(s.data)
+    back = r.read_string()
+    return (back, s.pos, size)
+
+
+def rt_dictionary(d):
+    s, w, r = _pair()
+    w.write_dictionary(d)
+    size = len(s.data)
+    back = r.read_dictionary()
+    return (back, list(back.items()), s.pos, size)
